@@ -98,7 +98,7 @@ TOFIX        alpha[i] = abs(values[i]) * 2 * Pi * rf * duration / len(values)
 
         # create operator
         name = kwargs.pop("name", f"RFPulse({len(values)}, {duration}ms)")
-        total = duration if np.isscalar(duration) else float(np.sum(duration))
+        total = duration if common.isscalar(duration) else float(np.sum(duration))
         super().__init__(seq, name=name, duration=total)
 
 
@@ -173,7 +173,7 @@ def make_pulse_sequence(transform, values, duration, rf, offset=None):
         values = values.reshape((nvalue,) + (1,) * ndim)
 
     # operator durations
-    if np.isscalar(duration):
+    if common.isscalar(duration):
         durations = np.ones(nvalue) * duration / nvalue
     elif len(duration) == nvalue:
         durations = np.asarray(duration)
